@@ -1,5 +1,6 @@
 (* Executable judge for C18 correspondence cases: one call of one helper. *)
 From Coq Require Export QArith.
+From Coq Require Import Qabs.
 From PV Require Export Models.MathFns.
 From PV Require Import Base.Bytes Run.Verdict.
 
@@ -16,11 +17,77 @@ Record case18 := {
   f    : fn;
   args : list arg;      (* kind + exact rational value | string | other kind *)
   how  : via;
+  lits : list (bytes * Q);
+                        (* every decimal literal token of the arguments' JavaScript source (and every decimal
+                           text handed to parseFloat), unsigned, with the double the generator read it as *)
   go   : outcome;       (* observed: Val q | Panic | Declined = output that is not a number *)
 }.
 
 (* emitter helpers *)
 Definition q (n : Z) (d : positive) : Q := Qmake n d.
+
+(* ------------------------------------------------------------------ *)
+(* the generator's reading of decimal literals, re-checked here:
+   text = digits* [. digits*] [(e|E) [+|-] digits+] denotes the decimal d;
+   the claimed value v must be a binary64 number (a multiple of 2^(e-52) where
+   2^e <= |v| < 2^(e+1)) with |d - v| <= half an ulp of v, i.e. a nearest double
+   (normal range; either neighbour is accepted on an exact tie). *)
+
+Fixpoint take_digits (s : bytes) (acc : Z) (n : nat) : Z * nat * bytes :=
+  match s with
+  | c :: r => if is_digit c then take_digits r (acc * 10 + (Z.of_N (N_of_ascii c) - 48))%Z (S n)
+              else (acc, n, s)
+  | [] => (acc, n, s)
+  end.
+
+Definition pow10 (k : Z) : Q :=
+  if (0 <=? k)%Z then inject_Z (10 ^ k) else Qmake 1 (Z.to_pos (10 ^ (- k))).
+Definition pow2 (k : Z) : Q :=
+  if (0 <=? k)%Z then inject_Z (2 ^ k) else Qmake 1 (Z.to_pos (2 ^ (- k))).
+
+Definition dec_value (s : bytes) : option Q :=
+  let '(ip, ni, r1) := take_digits s 0 0 in
+  let '(fp, nf, r2) := match r1 with
+                       | c :: r => if Ascii.eqb c "." then take_digits r ip 0 else (ip, 0%nat, r1)
+                       | [] => (ip, 0%nat, r1)
+                       end in
+  if (ni + nf =? 0)%nat then None else
+  let m := (inject_Z fp * pow10 (- Z.of_nat nf))%Q in
+  match r2 with
+  | [] => Some m
+  | c :: r =>
+    if Ascii.eqb c "e" || Ascii.eqb c "E" then
+      let '(sg, r3) := match r with
+                       | x :: r' => if Ascii.eqb x "-" then ((-1)%Z, r')
+                                    else if Ascii.eqb x "+" then (1%Z, r') else (1%Z, r)
+                       | [] => (1%Z, r)
+                       end in
+      let '(ev, ne, r4) := take_digits r3 0 0 in
+      match ne, r4 with
+      | S _, [] => Some (m * pow10 (sg * ev))%Q
+      | _, _ => None
+      end
+    else None
+  end.
+
+Definition nearest_double (d v : Q) : bool :=
+  let v := Qred v in
+  if Qeq_bool v 0 then Qeq_bool d 0
+  else
+    let e := (Z.log2 (Z.abs (Qnum v)) - Z.log2 (Z.pos (Qden v)))%Z in
+    (* for a double, 2^e <= |v| < 2^(e+1), and v is a multiple of its ulp 2^(e-52) (53 significant bits);
+       for any other rational the second test fails *)
+    (Qden (Qred (v * pow2 (52 - e))) =? 1)%positive &&
+    Qle_bool (pow2 e) (Qabs v) && negb (Qle_bool (pow2 (e + 1)) (Qabs v)) &&
+    Qle_bool (Qabs (d - v)) (pow2 (e - 53)).
+
+Definition lit_ok (tv : bytes * Q) : bool :=
+  match dec_value (fst tv) with
+  | Some d => nearest_double d (snd tv)
+  | None => false
+  end.
+
+Definition lits_ok (c : case18) : bool := forallb lit_ok (lits c).
 
 (* M *)
 Definition model (c : case18) : outcome :=
@@ -80,6 +147,8 @@ Definition outcome_eqb (a b : outcome) : bool :=
 Definition declined (o : outcome) : bool :=
   match o with Declined => true | _ => false end.
 
+(* a case whose literals the generator misread is a defect of the check itself: reported as drift *)
 Definition judge (c : case18) : nat :=
-  if negb (in_dom c) && declined (model c) then v_unmodelled
+  if negb (lits_ok c) then v_drift
+  else if negb (in_dom c) && declined (model c) then v_unmodelled
   else verdict (in_dom c) (oracle18 c) (outcome_eqb (model c) (go c)).
